@@ -86,7 +86,7 @@ struct Coder : Profile {
     std::vector<std::string> required_probes() const override
     {
         return {"rle", "skphuff", "deflate", "none", "backward-seek", "rewrite", "multi-call-write", "nbit", "nbit-signext", "bits", "bitseek",
-                "restart", "empty-read-at-end", "writer-readback", "append-later", "bitmix", "bit-read-in-write-mode", "hnbit", "hnbit-partitioned-read", "hnbit-seek"};
+                "restart", "empty-read-at-end", "writer-readback", "append-later", "bitmix", "bit-read-in-write-mode", "hnbit", "hnbit-partitioned-read", "hnbit-seek", "partial-refused"};
     }
 
     Plan generate(Rng &rng, bool thorough, uint64_t) override
@@ -100,9 +100,9 @@ struct Coder : Profile {
         int maxlen = r.chance(0.25) ? 6000 : 400;
         static const std::vector<int> w     = {/*ccreate*/ 10, /*cwrite*/ 22, /*cend*/ 8, /*crewrite*/ 7, /*cread*/ 22, /*csize*/ 4, /*restart*/ 5,
                                                /*nbit*/ 7,     /*nbitread*/ 5, /*bitwrite*/ 6, /*bitread*/ 8,
-                                               /*cwread*/ 9,   /*cappend*/ 5,  /*bitmix*/ 7,   /*hnbit*/ 6, /*hnbitread*/ 7, /*cdelete*/ 3, /*bitdelete*/ 2, /*hnbdelete*/ 2};
+                                               /*cwread*/ 9,   /*cappend*/ 5,  /*bitmix*/ 7,   /*hnbit*/ 6, /*hnbitread*/ 7, /*cdelete*/ 3, /*bitdelete*/ 2, /*hnbdelete*/ 2, /*cpartial*/ 5};
         static const char            *names[] = {"ccreate", "cwrite", "cend", "crewrite", "cread", "csize", "restart", "nbit", "nbitread", "bitwrite", "bitread",
-                                                 "cwread", "cappend", "bitmix", "hnbit", "hnbitread", "cdelete", "bitdelete", "hnbdelete"};
+                                                 "cwread", "cappend", "bitmix", "hnbit", "hnbitread", "cdelete", "bitdelete", "hnbdelete", "cpartial"};
         // the generator follows which slots exist so that most ops find their precondition (the executor still skips the rest)
         bool ex[NEL] = {false}, wr[NEL] = {false}, dat[NEL] = {false}, bx[NBIT] = {false}, nx[NNB] = {false}, hx[NNB] = {false};
         auto pick = [&](const bool *a, int n, bool want) -> int64_t {
@@ -208,6 +208,11 @@ struct Coder : Profile {
                     e = pick(bx, NBIT, true);
                     p.ops.push_back(mkop(0, names[k], {e}));
                     bx[e] = false;
+                    break;
+                case 19: // a write that does not cover the stream: anywhere, any length
+                    e = pick(dat, NEL, true);
+                    p.ops.push_back(mkop(0, names[k], {e, (int64_t)r.below(1000), (int64_t)r.below(1000), (int64_t)(r.next() >> 16)}));
+                    wr[e] = false;
                     break;
                 case 18:
                     e = pick(hx, NNB, true);
@@ -481,6 +486,37 @@ struct Coder : Profile {
                         ctx.fail("endaccess-failed", strf("endaccess-failed:rewrite:%s", cname(m.coder)), strf("Hendaccess after a full rewrite failed: %s", herr().c_str()));
                     m.data = d;
                     ctx.probe("rewrite");
+                }
+            }
+            else if (k == "cpartial") {
+                // a write into the middle or over a part of the stream: the coders may refuse it (they document that they
+                // do), but what they accept has to take effect as on a plain byte array and a refusal changes nothing
+                int  e = modn(o.arg(0), NEL);
+                MEl &m = s.el[e];
+                if (!m.exists || m.data.size() < 2)
+                    done = false;
+                else {
+                    open_h(s, ndds);
+                    end_writer(s, e);
+                    int64_t len = (int64_t)m.data.size();
+                    int64_t pos = o.arg(1) % 3 == 0 ? 0 : o.arg(1) % len;
+                    int64_t n   = 1 + o.arg(2) % (len - pos);
+                    if (pos == 0 && n == len)
+                        n = len - 1;
+                    int32 aid = Hstartaccess(s.fid, 8900, (uint16)(1 + e), DFACC_RDWR);
+                    if (aid == FAIL)
+                        ctx.fail("access-refused", strf("access-refused:partial:%s", cname(m.coder)), strf("Hstartaccess(RDWR) on compressed element %d failed: %s", e, herr().c_str()));
+                    bool ok = pos == 0 || Hseek(aid, (int32)pos, DF_START) != FAIL;
+                    std::vector<uint8_t> d = gen_data(0, n, (uint64_t)o.arg(3));
+                    if (ok && Hwrite(aid, (int32)n, d.data()) == (int32)n) {
+                        std::copy(d.begin(), d.end(), m.data.begin() + pos);
+                        ctx.probe("partial-accepted");
+                    }
+                    else
+                        ctx.probe("partial-refused");
+                    if (Hendaccess(aid) == FAIL)
+                        ctx.fail("endaccess-failed", strf("endaccess-failed:partial:%s", cname(m.coder)), strf("Hendaccess after a partial write failed: %s", herr().c_str()));
+                    read_pattern(s, e, (uint64_t)o.arg(3), 2, "after a partial write");
                 }
             }
             else if (k == "cread" || k == "csize") {
